@@ -35,8 +35,12 @@ def suites(tier):
         cfg.update(norm=0, rep=0, pk=0, scheme=0, nmin=1, nmax=nmax, mmin=1, mmax=mmax, c16=4, c32=4, vsnil=1)
         jobs.append(dict(id=jid("slab", cfg), func="zzH_C05_slab", cfg=cfg))
     for cfg in product(kind=[0, 1, 2, 3, 4, 5, 6], cs=[0, 1], fwd=[0, 1], pos=[1]):
-        cfg.update(norm=0, pk=0, scheme=0, nmin=0, nmax=nmax, mmin=1, mmax=mmax)
+        cfg.update(norm=0, pk=0, scheme=0, nmin=0, nmax=nmax, mmin=1, mmax=mmax, c16=0, c32=0)
         jobs.append(dict(id=jid("repr", cfg), func="zzH_C05_repr", cfg=cfg))
+    # with a small slab: the fall-back to the greedy algorithm must not depend on the representation
+    for cfg in product(c16=[5, 7] if tier == "quick" else [3, 5, 7, 9], cs=[1], fwd=[0, 1], pos=[1]):
+        cfg.update(kind=6, norm=0, pk=2, scheme=0, nmin=3, nmax=nmax + 1, mmin=2, mmax=2, c32=12)
+        jobs.append(dict(id=jid("repr-slab", cfg), func="zzH_C05_repr", cfg=cfg))
     for cfg in product(kind=[0, 1, 2, 3, 4, 5, 6], cs=[0], fwd=[0, 1]):
         cfg.update(norm=0, rep=0, pk=0, scheme=0, nmin=0, nmax=nmax, mmin=1, mmax=mmax)
         jobs.append(dict(id=jid("pos", cfg), func="zzH_C05_pos", cfg=cfg))
